@@ -84,6 +84,12 @@ func (s *seqRun) coherence() {
 	if s.dead {
 		return
 	}
+	// (the listings issued here are helper requests: their lock events must not be attributed to the next traced operation)
+	defer func() {
+		if s.locks && !s.inline {
+			takeSeqEvents()
+		}
+	}()
 	s.waitIdle()
 	st := s.srv.VerifFsState()
 	st.Txn.Flush()
@@ -171,6 +177,11 @@ func le64b(n uint64) []byte {
 // restartCompare: dump, recover a second server from a copy of the raw image,
 // restart the first cleanly; all three dumps must be equal.
 func (s *seqRun) restartCompare() {
+	defer func() {
+		if s.locks && !s.inline {
+			takeSeqEvents()
+		}
+	}()
 	if s.dead {
 		return
 	}
